@@ -70,6 +70,12 @@ def check(run):
     run.floor('C14-RESTORE', nreg, 2)
     ps = p.cls('PRNGState')
     src = ast.unparse(ps.node).replace(' ', '')
+    init = ps.methods['__init__']
+    seedp = init.posparams[1]
+    tests = [s.test for s in init.node.body if isinstance(s, ast.If)]
+    ok_none = len(tests) == 1 and norm(tests[0]).replace(' ', '') == '%sisnotNone' % seedp
+    run.ob('C14-RESTORE', 'PRNGState:seed-test', ok_none, 'PRNGState seeds whenever the seed `%s` (0 is a seed): %s' % (
+        norm(tests[0]) if tests else '?', 'ok' if ok_none else 'a truthiness test treats seed 0 as no seed'), fn=init)
     run.ob('C14-RESTORE', 'PRNGState', 'self.saved=random.getstate()' in src and 'random.setstate(self.saved)' in src and 'random.seed(n)' in src,
            'PRNGState saves the global state, seeds, and restore() puts the saved state back', fn=ps.methods['__init__'], nontrivial=False)
 
